@@ -1496,7 +1496,9 @@ class GroupBy:
 
             arr_len = lengths.pop()
 
-            could_be_non_reduce = arr_len == (len(self) if mask is None else mask.sum())
+            # number of rows which belong to a group (and are selected by the mask)
+            n_rows_in_groups = sum(len(arr) for arr in array_splits[0])
+            could_be_non_reduce = arr_len == n_rows_in_groups
             could_be_fixed_length = arr_len % len(group_index) == 0
             if could_be_non_reduce and could_be_fixed_length:
                 # very unlikely for large data
